@@ -96,6 +96,12 @@ def gen_export(rng, n=None, with_rsu=False, hostile=0.05):
                           "TransactionDetails": [{"Details": {"VestDate": vd.strftime("%m/%d/%Y"), "VestFairMarketValue": usd(rng, rng.choice([100.5, 42, 1234.5678]))}}]})
         else:
             rows.append(mk(rng, "Buy", d, sym, Quantity=str(q), Price=usd(rng, p)))
+        if r < 0.45 and r >= 0.25 and rng.random() < 0.15:
+            # equal fills corrected together: k identical Sell rows and 2..k identical Cancel Sell rows, anywhere in the file
+            k = rng.choice([2, 3]); row = rows[-1]
+            for _ in range(k - 1): rows.insert(rng.randint(0, len(rows)), dict(row))
+            for _ in range(rng.randint(2, k)):
+                c = dict(row); c["Action"] = "Cancel Sell"; rows.insert(rng.randint(0, len(rows)), c)
         if rng.random() < hostile:
             rows[-1][rng.choice(["Date", "Quantity", "Price", "Amount", "Symbol", "Action"])] = rng.choice(["abc", "13/45/2020", "$1.2.3", "", None, "1e5", "02/30/2021"])
     if with_rsu: awards = {"Transactions": aw_tx}
@@ -346,6 +352,40 @@ def k_c19(ctx):
         rows, aw, dep, sym = gen_awards_case(rng, exhaustive_offsets=sub); cases["s%d" % mask] = (rows, aw); meta["s%d" % mask] = (dep, sym); nsub += 1
     ctx.count("offset_subsets", nsub)
     cases["noawards"] = (gen_awards_case(rng)[0], None); meta["noawards"] = (None, None)
+    # several deposits of one symbol a few days apart (each is looked up on its own, whatever the row order)
+    multi = {}
+    for i in range(ctx.n(500, 6000)):
+        rows, aw, dep, sym = gen_awards_case(rng, exhaustive_offsets=sorted(rng.sample(range(-9, 9), rng.randint(1, 5))))
+        deps = [(dep, "10")]
+        for j, dlt in enumerate(rng.sample([1, 2, 4, 5, 6, 8, -3], rng.randint(1, 2))):
+            d2 = dep + datetime.timedelta(days=dlt); q = str(20 + 10 * j)
+            rows.append(dict(rows[0], Date=d2.strftime("%m/%d/%Y"), Quantity=q)); deps.append((d2, q))
+        order = rng.choice(["asc", "desc", "shuffle"])
+        if order == "shuffle": rng.shuffle(rows)
+        else: rows.sort(key=lambda r: clean_date(r["Date"]), reverse=(order == "desc"))
+        ctx.count("multi_deposit_row_order", order)
+        multi["m%d" % i] = (rows, aw, deps, sym)
+    mm_, mr_ = both({k: (v[0], v[1]) for k, v in multi.items()})
+    for cid, (rows, aw, deps, sym) in multi.items():
+        ctx.evaluations += 1; ctx.traces += 1; rr = mr_[cid]; mdl = mm_[cid]
+        exps = [(expected_fmv(aw, d, sym), q) for d, q in deps]
+        bad = None
+        if any(e is None for e, _ in exps):
+            if rr.get("ok") or rr.get("kind") != "MissingFmv": bad = ("never_a_guess", "a deposit has no vest entry within 7 days back but the conversion %s" % ("succeeds" if rr.get("ok") else "fails with " + str(rr.get("kind"))))
+        elif not rr.get("ok"): bad = ("lookup", "every deposit has a vest entry but the conversion fails: %s" % rr.get("error"))
+        else:
+            got = sorted((t.split("|")[0], str(F(t.split("|")[4])), str(F(t.split("|")[3]))) for t in rr["txns"] if "|BUY|" in t)
+            want = sorted((e[0].isoformat(), str(e[1]), str(F(q))) for e, q in exps)
+            if got != want: bad = ("lookup", "acquisitions (date, price, quantity) %s, expected %s" % (got, want))
+        if bad:
+            ctx.disagreements_checked += 1
+            ctx.violation("%s: %s" % bad, {"rows": rows, "awards": aw, "code": rr, "model": mdl, "case_id": cid}, found_input=True); continue
+        if mdl.get("ok") != rr.get("ok"):
+            ctx.violation("correspondence K.C19.lookup broken: accept: model %s, code %s" % (mdl.get("kind") or "ok", rr.get("kind") or "ok"), {"rows": rows, "awards": aw, "code": rr, "model": mdl, "correspondence": "K.C19.lookup"}, found_input=False)
+        elif mdl.get("ok"):
+            ml = [binascii.unhexlify(h).decode("utf-8", "replace") for h in mdl["lines_hex"]]
+            if ml != rr["content"].split("\n"):
+                ctx.violation("correspondence K.C19.lookup broken: output differs: model %r, code %r" % (ml[-3:], rr["content"].split("\n")[-3:]), {"rows": rows, "awards": aw, "code": rr, "model": mdl, "correspondence": "K.C19.lookup"}, found_input=False)
     m, r = both(cases)
     for cid, (rows, aw) in cases.items():
         ctx.evaluations += 1; ctx.traces += 1
